@@ -1375,7 +1375,7 @@ def _slot_char_ok(c):
     return 0 < ord(c) < 0x80 or c == '\udc80' or c == '\udcff' or c == '\xe9'
 
 
-def _run_entlump(s, ki, ti, comma, force, inst, ns, slot, ctx):
+def _run_entlump(s, ki, ti, comma, comma2, force, inst, ns, slot, ctx):
     """worldspawn + one entity with a key/value pair and two outputs; ONE text slot (value, output parameter, target,
     input name, output name or key) is `pre + s + post` with s symbolic of exact length ns, everything else constant."""
     import srctools.bsp as bm
@@ -1383,7 +1383,9 @@ def _run_entlump(s, ki, ti, comma, force, inst, ns, slot, ctx):
     assume(len(s) == ns)
     for c in s:
         assume(_slot_char_ok(c))
-    comma, force, inst = cbool(comma), cbool(force), cbool(inst)
+    comma, comma2, force, inst = cbool(comma), cbool(comma2), cbool(force), cbool(inst)
+    if force:
+        comma2 = comma          # a forced separator overrides every output's own: one case, not two
     pre, post = ENT_CTX[ctx]
     f = {"key": pick(ENT_KEYS, ki) if slot != "key" else "", "val": "v 1", "out": "OnOpen", "tgt": "door_1", "inp": "Trigger", "par": "p"}
     if slot == "key":
@@ -1407,7 +1409,7 @@ def _run_entlump(s, ki, ti, comma, force, inst, ns, slot, ctx):
     ent[f["key"]] = f["val"]
     ent.add_out(Output(f["out"], f["tgt"], f["inp"], f["par"], 1.5, times=times, comma_sep=comma,
                        inst_out='inst_a' if inst else None, inst_in='rl-b' if inst else None))
-    ent.add_out(Output('OnClose', 'relay', 'Kill', '', 0.0, times=-1, comma_sep=comma))
+    ent.add_out(Output('OnClose', 'relay', 'Kill', '', 0.0, times=-1, comma_sep=comma2))     # may differ from the first output's: a mixed lump
     vmf.add_ent(ent)
     b = new_bsp("v21")
     b.out_comma_sep = comma if force else None
@@ -1436,17 +1438,17 @@ def _run_entlump(s, ki, ti, comma, force, inst, ns, slot, ctx):
           "output delay / times / separator / instance names", (o.delay, o.times, o.comma_sep, o.inst_out, o.inst_in))
     o = g.outputs[1]
     check((o.output, o.target, o.input, o.params, o.delay, o.times, o.comma_sep, o.inst_out, o.inst_in) ==
-          ('OnClose', 'relay', 'Kill', '', 0.0, -1, comma, None, None), "second output changed")
+          ('OnClose', 'relay', 'Kill', '', 0.0, -1, comma2, None, None), "second output changed")
     check(b2.out_comma_sep is comma, "separator detected differently", b2.out_comma_sep)
     return True
 
 
-def h_entlump(s: str, ki: int, ti: int, comma: bool, force: bool, inst: bool, ns: int, slot: str, ctx: int = 0) -> None:
-    _run_entlump(s, ki, ti, comma, force, inst, ns, slot, ctx)
+def h_entlump(s: str, ki: int, ti: int, comma: bool, comma2: bool, force: bool, inst: bool, ns: int, slot: str, ctx: int = 0) -> None:
+    _run_entlump(s, ki, ti, comma, comma2, force, inst, ns, slot, ctx)
 
 
-def h_entlump_w(s: str, ki: int, ti: int, comma: bool, force: bool, inst: bool, ns: int, slot: str, ctx: int = 0) -> None:
-    if _run_entlump(s, ki, ti, comma, force, inst, ns, slot, ctx) and (ns == 0 or s[0] == '"' or s[0] == '\udcff'):
+def h_entlump_w(s: str, ki: int, ti: int, comma: bool, comma2: bool, force: bool, inst: bool, ns: int, slot: str, ctx: int = 0) -> None:
+    if _run_entlump(s, ki, ti, comma, comma2, force, inst, ns, slot, ctx) and (ns == 0 or s[0] == '"' or s[0] == '\udcff'):
         raise Fail("reached")
 
 
